@@ -180,6 +180,9 @@ func init() {
 		bs := bytesSort(cc.e.g())
 		r := cc.def("kvget", bs, fmt.Sprintf("(select %s %s)", cc.e.getState(kv), cc.arg(1)))
 		cc.e.typeInv(r, types.NewSlice(types.Typ[types.Uint8]), 0)
+		if inv := cc.e.keyInv(kv, cc.arg(1), r); inv != "" {
+			cc.e.r.assume(inv)
+		}
 		return []string{r}, true
 	}
 	has := func(cc *callCtx) ([]string, bool) {
@@ -200,6 +203,11 @@ func init() {
 		kv := cc.e.kvName(h)
 		bs := bytesSort(cc.e.g())
 		cc.e.panicIf(fmt.Sprintf("(%s_nil %s)", bs, cc.arg(2)), "KVStore.Set: nil value", cc.ins)
+		if inv := cc.e.keyInv(kv, cc.arg(1), cc.arg(2)); inv != "" {
+			// store invariant: the entry is written under the key derived from its own key field
+			cc.e.r.addObl(&Obligation{Name: fmt.Sprintf("%s#storeinv@%s", cc.e.r.fnShort, mangle(kv)), Kind: "storeinv",
+				Goal: fmt.Sprintf("(=> %s %s)", cc.e.reach[cc.e.cur], inv), Src: "write to " + kv + " keeps the key-field invariant at " + posStr(cc.e.fn.Prog.Fset, cc.ins.Pos())})
+		}
 		cc.e.setState(kv, "", fmt.Sprintf("(store %s %s %s)", cc.e.getState(kv), cc.arg(1), cc.arg(2)))
 		return nil, true
 	}
@@ -447,7 +455,7 @@ func newIter(cc *callCtx, rev bool) ([]string, bool) {
 	e.ensureState(ii.pos, "Int")
 	e.setState(ii.pos, "Int", "0")
 	ii.idxFn = id + "_idx"
-	e.r.items = append(e.r.items, Item{"decl", fmt.Sprintf("(declare-fun %s (%s) Int)", ii.idxFn, bs)})
+	e.r.items = append(e.r.items, Item{"decl", fmt.Sprintf("(declare-fun %s (%s) Int)", ii.idxFn, bs), e.r.curBlock})
 	g.DeclFun("klt", []string{bs, bs}, "Bool")
 	g.Axiom("klt.order", fmt.Sprintf("(and (forall ((a %s)) (! (not (klt a a)) :pattern ((klt a a)))) (forall ((a %s) (b %s) (c %s)) (! (=> (and (klt a b) (klt b c)) (klt a c)) :pattern ((klt a b) (klt b c)))))", bs, bs, bs, bs))
 	e.r.assume(fmt.Sprintf("(>= %s 0)", ii.n))
@@ -504,4 +512,27 @@ func (v *Verifier) repoRule(fn *ssa.Function) (extRule, bool) {
 		}, true
 	}
 	return nil, false
+}
+
+// keyInv: the key-field invariant instance of a typed store for one raw (key, value) pair:
+// value present ==> key == keyfun(unmarshal(value).KeyField). Empty if the KV prefix has no such invariant declared.
+func (e *Enc) keyInv(kv, key, val string) string {
+	for _, name := range sortedKeys(e.r.v.specs.Stores) {
+		sd := e.r.v.specs.Stores[name]
+		if sd.KV != kv || sd.KeyField == "" || sd.Raw {
+			continue
+		}
+		vt := e.r.v.lookupType(sd.ValTy)
+		if vt == nil {
+			return ""
+		}
+		g := e.g()
+		vs := g.SortOf(vt)
+		env := &SpecEnv{e: e, vars: map[string]SV{}, cur: e.st, old: map[string]string{}, errCtx: "store invariant of " + sd.Name, noLocals: true}
+		v := SV{t: fmt.Sprintf("(%s %s)", unmarshalFun(g, vs), val), sort: vs, gt: vt}
+		f := env.field(v, sd.KeyField)
+		bs := bytesSort(g)
+		return fmt.Sprintf("(=> (not (%s_nil %s)) (= %s %s))", bs, val, key, env.storeKey(sd, []SV{f}))
+	}
+	return ""
 }
